@@ -169,6 +169,7 @@ SMatches(s, r) ==
                                                 /\ SMatches(s.v[SLastIdx(s.k, r.k[j])], r.v[j])
                       /\ \A j1, j2 \in 1..Len(r.k) : r.k[j1] = r.k[j2] => j1 = j2
 \* coarse shape of the first mismatching leaf, used only to name the locus
+NanoLimitMs == [neg |-> FALSE, digits |-> <<9,2,2,3,3,7,2,0,3,6,8,5,4>>, exp10 |-> 0]       \* 2^63 ns in ms
 RECURSIVE SBlame(_, _)
 KeyIn(r, s, j) == \E i \in 1..Len(s.k) : r.k[j] = s.k[i].a \/ r.k[j] = s.k[i].b
 SBlame(s, r) ==
@@ -183,5 +184,7 @@ SBlame(s, r) ==
          ELSE <<"obj", IF /\ \A i \in 1..Len(s.k) : \E j \in 1..Len(r.k) : r.k[j] \in {s.k[i].a, s.k[i].b, s.k[i].c}
                           /\ \A j \in 1..Len(r.k) : \E i \in 1..Len(s.k) : r.k[j] \in {s.k[i].a, s.k[i].b, s.k[i].c}
                        THEN "key-pair-as-two-U+FFFD" ELSE "keys">>
+    [] s.t = "time" -> <<"time", IF r.t # "time" THEN r.t
+                                 ELSE IF s.sec < 0 /\ JV!MagCmp(s.ms, NanoLimitMs) > 0 THEN "ms-beyond-int64-nanoseconds" ELSE "instant">>
     [] OTHER -> <<s.t, IF r.t = s.t THEN "len" ELSE r.t>>
 =============================================================================
